@@ -103,6 +103,17 @@ type (
 		F2 []string
 	}
 	c08_NPtrs []*int
+	// declared container types over string / byte / float64 elements (the element types the
+	// converters have exact-type entries or fast paths for) and a struct that holds one
+	c08_NLabels []string
+	c08_NNames  [2]string
+	c08_NBytes  []byte
+	c08_NF64s   []float64
+	c08_NTagged struct {
+		F0 c08_NLabels
+		F1 int
+	}
+	c08_NEnv map[string][]string
 )
 
 type c08_namedEntry struct {
@@ -136,7 +147,7 @@ func c08_addNamed(id int, sample any, under *c08_MTy, scalar bool) *c08_MTy {
 	return e.mty
 }
 
-var c08_mNPoint, c08_mNBox *c08_MTy
+var c08_mNPoint, c08_mNBox, c08_mNLabels, c08_mNTagged *c08_MTy
 
 func init() {
 	c08_addNamed(1, time.Duration(0), c08_mInt(64), true)
@@ -154,6 +165,12 @@ func init() {
 	c08_mNPoint = c08_addNamed(13, c08_NPoint{}, c08_mStruct(c08_mInt(0), c08_mk("str")), false)
 	c08_mNBox = c08_addNamed(14, c08_NBox{}, c08_mStruct(c08_mNPoint, c08_mPtr(c08_mInt(0)), c08_mSlice(c08_mk("str"))), false)
 	c08_addNamed(15, c08_NPtrs(nil), c08_mSlice(c08_mPtr(c08_mInt(0))), false)
+	c08_mNLabels = c08_addNamed(16, c08_NLabels(nil), c08_mSlice(c08_mk("str")), false)
+	c08_addNamed(17, c08_NNames{}, c08_mArray(2, c08_mk("str")), false)
+	c08_addNamed(18, c08_NBytes(nil), c08_mSlice(c08_mUint(8)), false)
+	c08_addNamed(19, c08_NF64s(nil), c08_mSlice(c08_mk("f64")), false)
+	c08_mNTagged = c08_addNamed(20, c08_NTagged{}, c08_mStruct(c08_mNLabels, c08_mInt(0)), false)
+	c08_addNamed(21, c08_NEnv(nil), c08_mMap(c08_mSlice(c08_mk("str"))), false)
 }
 
 func c08_intRT(w int) reflect.Type {
@@ -967,6 +984,21 @@ func (h *c08_Host) E42(x c08_NBox) c08_NBox                   { h.rec(x); return
 func (h *c08_Host) E43(x *float32) *float32                   { h.rec(x); return x }
 func (h *c08_Host) E44(x []uint64) []uint64                   { h.rec(x); return x }
 func (h *c08_Host) E45(x *any) *any                           { h.rec(x); return x }
+func (h *c08_Host) E46(x c08_NLabels) c08_NLabels             { h.rec(x); return x }
+func (h *c08_Host) E47(x []c08_NLabels) []c08_NLabels         { h.rec(x); return x }
+func (h *c08_Host) E48(x map[string]c08_NLabels) map[string]c08_NLabels {
+	h.rec(x)
+	return x
+}
+func (h *c08_Host) E49(x c08_NTagged) c08_NTagged               { h.rec(x); return x }
+func (h *c08_Host) E50(x c08_NNames) c08_NNames                 { h.rec(x); return x }
+func (h *c08_Host) E51(x [2]c08_NPoint) [2]c08_NPoint           { h.rec(x); return x }
+func (h *c08_Host) E52(x map[string]c08_NPoint) map[string]c08_NPoint {
+	h.rec(x)
+	return x
+}
+func (h *c08_Host) E53(x *c08_NBox) *c08_NBox { h.rec(x); return x }
+func (h *c08_Host) E54(x c08_NBytes) c08_NBytes { h.rec(x); return x }
 
 type c08_hostMethod struct {
 	name string
@@ -1099,7 +1131,6 @@ func (g *c08_gen) mismatch(t *c08_MTy) object.Object {
 		default:
 			o = object.NewFloatSlice([]float64{1})
 		}
-		// a Map object is never offered to a struct-typed slot (map → struct is not modelled)
 		_ = u
 		return o
 	}
@@ -1216,9 +1247,9 @@ func c08_elemClass(t *c08_MTy, o object.Object) string {
 	})
 }
 
-// structObj: a proxy for a struct-typed slot (never a Map)
+// structObj: a proxy — or a map — for a struct-typed slot
 func (g *c08_gen) structObj(t *c08_MTy, depth int) object.Object {
-	switch g.r.Intn(6) {
+	switch g.r.Intn(8) {
 	case 0:
 		g.boundary = true
 		p, _ := object.NewProxy(c08_otherPoint) // a proxy of another struct type
@@ -1230,11 +1261,86 @@ func (g *c08_gen) structObj(t *c08_MTy, depth int) object.Object {
 		return p
 	case 2:
 		return object.NewInt(1)
+	case 3, 4:
+		// a MAP where Go wants the struct (StructConverter.To, case *Map)
+		if o := g.mapFor(t, depth, false); o != nil {
+			return o
+		}
 	}
 	if o := g.natural(t, depth); o != nil {
 		return o
 	}
 	return object.Nil
+}
+
+// structOf: the struct type a struct-kind slot (S or *S, declared or not) is about; nil for time.Time
+func c08_structOf(t *c08_MTy) *c08_MTy {
+	u := t.under()
+	if u.K == "ptr" {
+		u = u.E.under()
+	}
+	if u.K != "struct" {
+		return nil
+	}
+	return u
+}
+
+// fieldClass: how StructConverter.To ends on the one-entry map {F<idx>: o} (ok / error / panic)
+func c08_fieldClass(t *c08_MTy, idx int, o object.Object) string {
+	return c08_recoverClass(func() string {
+		conv, err := c08_getConverter(t, "get")
+		if err != nil {
+			return "error"
+		}
+		if _, err := conv.To(object.NewMap(map[string]object.Object{"F" + strconv.Itoa(idx): o})); err != nil {
+			return "error"
+		}
+		return "ok"
+	})
+}
+
+var c08_strayKeys = []string{"zz", "f0", "F", "F01", "F99", "", "F0 "}
+
+// mapFor: a map object aimed at a struct-kind slot.  Each field is named with probability 60%
+// (full: 90%), its value aimed at the field's type; sometimes a key that names no field.  Only
+// entries whose conversion alone ends in the same class (ok / error / panic) are kept: Go walks the
+// map in its own order, so with an error and a panic together the outcome would depend on it.
+func (g *c08_gen) mapFor(t *c08_MTy, depth int, full bool) object.Object {
+	st := c08_structOf(t)
+	if st == nil {
+		return nil
+	}
+	m := map[string]object.Object{}
+	first := ""
+	pct := 60
+	if full {
+		pct = 90
+	}
+	for i, f := range st.Fs {
+		if !g.r.Chance(pct) {
+			continue
+		}
+		var o object.Object
+		if full {
+			o = g.natural(f, depth-1)
+			if o == nil || o == object.Nil {
+				o = g.objFor(f, depth-1)
+			}
+		} else {
+			o = g.objFor(f, depth-1)
+		}
+		cls := c08_fieldClass(t, i, o)
+		if first == "" {
+			first = cls
+		}
+		if cls == first {
+			m["F"+strconv.Itoa(i)] = o
+		}
+	}
+	if g.r.Chance(12) {
+		m[Pick(g.r, c08_strayKeys)] = g.anyObj(1)
+	}
+	return object.NewMap(m)
 }
 
 // ---------------------------------------------------------------------------------------------
@@ -1334,6 +1440,16 @@ func (r *c08Run) flush() {
 				cls = "a step rejected"
 			} else if strings.HasPrefix(c.gout, "(res script-") {
 				cls = "script failed"
+			}
+		} else if c.op == "seq" || c.op == "callseq" {
+			cls = "every conversion accepted"
+			if strings.Contains(c.gout, " panic") {
+				cls = "a conversion panicked"
+			} else if strings.Contains(c.gout, " error") {
+				cls = "a conversion rejected"
+			}
+			if strings.Contains(c.key, "(m ") && strings.Contains(c.gout, "(st") {
+				r.e.R.H("series_with_map_for_struct", cls)
 			}
 		} else if strings.HasPrefix(cls, "(ok") {
 			cls = "ok"
@@ -1714,6 +1830,226 @@ func (r *c08Run) callNCase(m c08_hostMethodN, os []object.Object, viaScript bool
 			}
 		}
 	}
+}
+
+// ---------------------------------------------------------------------------------------------
+// ONE converter, a series of conversions.  typeConverters / GoType.converter keep one converter per
+// Go type for the whole process; whatever it converted before, conversion k must be the conversion
+// of object k alone (model: toSlotSeq / callSeq = the single conversions; Spec: every single write
+// faithful or rejected).  The series are biased towards struct types assembled from MAP objects in
+// which a later map names fewer fields than an earlier one.
+
+func c08_seqStr(rs []string) string { return "(seq " + strings.Join(rs, " ") + ")" }
+
+// seqCase: conv := converter of t (fetched once); for each object: conv.To + assignment into a fresh slot
+func (r *c08Run) seqCase(t *c08_MTy, mode string, os []object.Object) {
+	rs := make([]string, len(os))
+	conv, err := c08_getConverter(t, mode)
+	for i, o := range os {
+		if err != nil {
+			rs[i] = "error"
+			continue
+		}
+		rs[i] = c08_toSlotReal(conv, t, o)
+	}
+	gout := c08_seqStr(rs)
+	oss := c08_objsStr(os)
+	key := fmt.Sprintf("seq %s %s %s", mode, t, oss)
+	c08_tyHist(r.e, t)
+	r.e.R.H("seq_len", strconv.Itoa(len(os)))
+	r.add(c08Case{op: "seq", key: key, gout: gout,
+		req: strings.Join([]string{"C08", "seq", mode, t.String(), oss, gout}, "\t")})
+}
+
+// callSeqCase: h.E(o0); h.E(o1); … on ONE proxied host; what the method received and returned, per call
+func (r *c08Run) callSeqCase(m c08_hostMethod, os []object.Object, viaScript bool) {
+	h := &c08_Host{}
+	px, err := object.NewProxy(h)
+	if err != nil {
+		r.e.R.Mismatch("callseq "+m.name, "NewProxy(&Host{}) failed: "+err.Error(), "-", "harness host type")
+		return
+	}
+	gotStr := func(h *c08_Host) string {
+		slot := reflect.New(m.pt.RT()).Elem()
+		if h.Got != nil {
+			slot.Set(reflect.ValueOf(h.Got))
+		}
+		return c08_valStr(slot, m.pt)
+	}
+	rs := make([]string, len(os))
+	for i, o := range os {
+		h.Got, h.Called = nil, false
+		rs[i] = c08_recoverClass(func() string {
+			attr, ok := px.GetAttr(m.name)
+			if !ok {
+				return "error"
+			}
+			res := attr.(*object.Builtin).Call(context.Background(), o)
+			if _, isErr := res.(*object.Error); isErr {
+				return "error"
+			}
+			if !h.Called {
+				return "error"
+			}
+			return "(ok " + gotStr(h) + " " + c08_objStr(res) + ")"
+		})
+	}
+	gout := c08_seqStr(rs)
+	oss := c08_objsStr(os)
+	key := fmt.Sprintf("callseq %s %s", m.pt, oss)
+	c08_tyHist(r.e, m.pt)
+	r.e.R.H("seq_len", strconv.Itoa(len(os)))
+	r.add(c08Case{op: "callseq", key: key, gout: gout,
+		req: strings.Join([]string{"C08", "callseq", m.pt.String(), oss, gout}, "\t")})
+	if viaScript {
+		// the same calls made by ONE script: [h.E(x0), h.E(x1), …]; compared when every call is accepted
+		allOK := true
+		for _, x := range rs {
+			allOK = allOK && strings.HasPrefix(x, "(ok ")
+		}
+		h2 := &c08_Host{}
+		globals := map[string]any{"h": h2}
+		calls := make([]string, len(os))
+		for i, o := range os {
+			globals["x"+strconv.Itoa(i)] = o
+			calls[i] = "h." + m.name + "(x" + strconv.Itoa(i) + ")"
+		}
+		res, class := c08_evalReal("["+strings.Join(calls, ", ")+"]", globals)
+		skey := "eval-" + key
+		r.e.R.Case(skey, true)
+		r.e.R.H("outcome/eval-callseq", class)
+		if allOK {
+			want := make([]string, len(rs))
+			for i, x := range rs {
+				// "(ok V O)": the returned object is what follows the received value
+				want[i] = strings.TrimSuffix(strings.TrimPrefix(x, "(ok "+c08_valAt(x)+" "), ")")
+			}
+			if class != "ok" {
+				r.e.R.Mismatch(skey, class, "ok", "script method calls vs Proxy method calls")
+			} else if got := c08_objStr(res); got != "(l "+strings.Join(want, " ")+")" {
+				r.e.R.Mismatch(skey, got, "(l "+strings.Join(want, " ")+")", "script method calls vs Proxy method calls")
+			} else if len(os) > 0 && gotStr(h2) != c08_valAt(rs[len(rs)-1]) {
+				r.e.R.Mismatch(skey, gotStr(h2), c08_valAt(rs[len(rs)-1]), "what the last call received: script vs Proxy method call")
+			}
+		}
+	}
+}
+
+// valAt: the first S-expression after "(ok " of "(ok V O)"
+func c08_valAt(x string) string {
+	x = strings.TrimPrefix(x, "(ok ")
+	depth := 0
+	for i, c := range x {
+		switch c {
+		case '(':
+			depth++
+		case ')':
+			depth--
+			if depth == 0 {
+				return x[:i+1]
+			}
+		case ' ':
+			if depth == 0 {
+				return x[:i]
+			}
+		}
+	}
+	return x
+}
+
+// seqObj: an object for a slot of type t, biased towards maps where a struct is wanted
+func (g *c08_gen) seqObj(t *c08_MTy, full bool) object.Object {
+	u := t.under()
+	if c08_structOf(t) != nil && g.r.Chance(80) {
+		if o := g.mapFor(t, 2, full); o != nil {
+			return o
+		}
+	}
+	if (u.K == "slice" || u.K == "array" || u.K == "map") && c08_structOf(u.E) != nil && g.r.Chance(80) {
+		k := 1 + g.r.Intn(3)
+		if u.K == "array" {
+			k = u.N
+		}
+		if u.K == "map" {
+			m := map[string]object.Object{}
+			first := ""
+			for i := 0; i < k; i++ {
+				o := g.seqObj(u.E, full && i == 0)
+				cls := c08_elemClass(u.E, o)
+				if first == "" {
+					first = cls
+				}
+				if cls == first {
+					m[Pick(g.r, c08_keyPool)] = o
+				}
+			}
+			return object.NewMap(m)
+		}
+		items := make([]object.Object, k)
+		for i := range items {
+			items[i] = g.seqObj(u.E, full && i == 0)
+		}
+		return object.NewList(items)
+	}
+	return g.objFor(t, 2)
+}
+
+func (g *c08_gen) seqStructTy() *c08_MTy {
+	if g.r.Chance(55) {
+		return Pick(g.r, []*c08_MTy{c08_mNPoint, c08_mNPoint, c08_mNBox, c08_mNTagged})
+	}
+	return g.structTy(1)
+}
+
+func (r *c08Run) seqRandom() {
+	g := r.g
+	var t *c08_MTy
+	if g.r.Chance(70) {
+		st := g.seqStructTy()
+		switch g.r.Intn(7) {
+		case 0:
+			t = c08_mPtr(st)
+		case 1:
+			t = c08_mSlice(st)
+		case 2:
+			t = c08_mArray(1+g.r.Intn(2), st)
+		case 3:
+			t = c08_mMap(st)
+		default:
+			t = st
+		}
+	} else {
+		t = g.ty(1+g.r.Intn(2), false)
+	}
+	mode := "create"
+	if g.r.Chance(40) {
+		mode = "get"
+	}
+	os := make([]object.Object, 2+g.r.Intn(3))
+	for i := range os {
+		os[i] = g.seqObj(t, i == 0)
+	}
+	r.seqCase(t, mode, os)
+}
+
+func (r *c08Run) callSeqRandom() {
+	g := r.g
+	var ms []c08_hostMethod
+	for _, m := range c08_hostMethods {
+		u := m.pt.under()
+		if c08_structOf(m.pt) != nil || ((u.K == "slice" || u.K == "array" || u.K == "map") && c08_structOf(u.E) != nil) {
+			ms = append(ms, m)
+		}
+	}
+	m := Pick(g.r, c08_hostMethods)
+	if len(ms) > 0 && g.r.Chance(75) {
+		m = Pick(g.r, ms)
+	}
+	os := make([]object.Object, 2+g.r.Intn(3))
+	for i := range os {
+		os[i] = g.seqObj(m.pt, i == 0)
+	}
+	r.callSeqCase(m, os, g.r.Chance(15))
 }
 
 // ---------------------------------------------------------------------------------------------
@@ -2181,6 +2517,84 @@ func (r *c08Run) directed() {
 		{{1, c08_mk("bool"), reflect.ValueOf(true)}}})
 	r.reuseWriteCase("eval", []int64{1, 2, 3})
 	r.reuseWriteCase("evalcode", []int64{1, 2, 3})
+
+	// declared container types over string / byte / float64 elements, Go → script: as a global, as a
+	// struct field, as a method result, nested as the element of a slice / array / map
+	labels := c08_NLabels{"a", "b"}
+	rt(c08_mNLabels, labels)
+	rt(c08_mNLabels, c08_NLabels(nil))
+	rt(c08_mSlice(c08_mNLabels), []c08_NLabels{{"x"}, nil, {}})
+	rt(c08_mMap(c08_mNLabels), map[string]c08_NLabels{"k": {"v"}})
+	rt(c08_mArray(2, c08_mNLabels), [2]c08_NLabels{{"p"}, {"q", "r"}})
+	rt(c08_namedMenu[16].mty, c08_NNames{"l", "r"})
+	rt(c08_namedMenu[17].mty, c08_NBytes("hi"))
+	rt(c08_namedMenu[18].mty, c08_NF64s{1.5, -2})
+	rt(c08_namedMenu[20].mty, c08_NEnv{"PATH": {"/bin", "/usr/bin"}})
+	r.evalGlobalCase(c08_mNLabels, reflect.ValueOf(labels))
+	r.evalGlobalCase(c08_mPtr(c08_mNLabels), reflect.ValueOf(&labels)) // reads; only the way back is C08-declared-container-type
+	tv := reflect.ValueOf(c08_NTagged{F0: labels, F1: 3})
+	r.getCase(c08_mNTagged, tv, 0, true)
+	r.setCase(c08_mNTagged, tv, 0, object.NewList([]object.Object{object.NewString("z")}), false)
+	for _, m := range c08_hostMethods {
+		switch m.name {
+		case "E46":
+			r.callCase(m, object.NewList([]object.Object{object.NewString("a"), object.NewString("b")}), true)
+		case "E47":
+			r.callCase(m, object.NewList([]object.Object{object.NewList([]object.Object{object.NewString("a")}), object.NewList(nil)}), true)
+		case "E48":
+			r.callCase(m, object.NewMap(map[string]object.Object{"k": object.NewList([]object.Object{object.NewString("v")})}), true)
+		case "E49":
+			tp, _ := object.NewProxy(&c08_NTagged{F0: labels, F1: 1})
+			r.callCase(m, tp, true)
+		}
+	}
+
+	// a MAP where Go wants a struct, and series of them through one converter: the later maps name
+	// fewer fields than the earlier ones (every field they do not name must be zero)
+	mp := func(kv ...any) object.Object {
+		m := map[string]object.Object{}
+		for i := 0; i+1 < len(kv); i += 2 {
+			m[kv[i].(string)] = kv[i+1].(object.Object)
+		}
+		return object.NewMap(m)
+	}
+	full := mp("F0", num(3), "F1", str("first"))
+	onlyName := mp("F1", str("second"))
+	onlyNum := mp("F0", num(9))
+	for _, mode := range []string{"create", "get"} {
+		r.seqCase(c08_mNPoint, mode, []object.Object{full, onlyName, mp(), onlyNum})
+		r.seqCase(c08_mPtr(c08_mNPoint), mode, []object.Object{full, onlyName})
+		r.seqCase(c08_mSlice(c08_mNPoint), mode, []object.Object{object.NewList([]object.Object{full, onlyName, onlyNum})})
+		r.seqCase(c08_mArray(2, c08_mNPoint), mode, []object.Object{object.NewList([]object.Object{full, onlyName})})
+		r.seqCase(c08_mMap(c08_mNPoint), mode, []object.Object{mp("a", full), mp("a", onlyName)})
+	}
+	anon := c08_mStruct(c08_mk("str"), c08_mInt(16), c08_mk("bool"), c08_mSlice(c08_mk("str")))
+	r.seqCase(anon, "get", []object.Object{
+		mp("F0", str("n"), "F1", num(3), "F2", object.True, "F3", object.NewList([]object.Object{str("x")})),
+		mp("F0", str("m")), mp("zz", num(1)), mp("F1", num(40000))}) // the last one: 40000 is no int16, rejected
+	r.seqCase(c08_mNBox, "get", []object.Object{mp("F1", num(5), "F2", object.NewList([]object.Object{str("t")})), mp("F2", object.NewList(nil))})
+	r.seqCase(c08_mNBox, "get", []object.Object{mp("F0", full)})                           // C08-struct-field-set-panics (a struct-typed field, set from a map)
+	r.seqCase(c08_mStruct(c08_mPtr(c08_mInt(0))), "get", []object.Object{mp("F0", object.Nil)}) // C08-nil-element-panic-or-drop (a nil entry)
+	r.seqCase(c08_mSlice(c08_mInt(8)), "create", []object.Object{object.NewList([]object.Object{num(1), num(2)}), object.NewList([]object.Object{num(300)}), object.NewList(nil)})
+	for _, m := range c08_hostMethods {
+		switch m.name {
+		case "E31": // func (h *Host) E31(x NPoint) NPoint
+			r.callSeqCase(m, []object.Object{full, onlyName, onlyNum}, true)
+			r.callCase(m, onlyName, true)
+		case "E33": // []NPoint
+			r.callSeqCase(m, []object.Object{object.NewList([]object.Object{full, onlyName}), object.NewList([]object.Object{onlyNum})}, true)
+		case "E51", "E52":
+			if m.name == "E51" {
+				r.callSeqCase(m, []object.Object{object.NewList([]object.Object{full, onlyName})}, true)
+			} else {
+				r.callSeqCase(m, []object.Object{mp("k", full), mp("k", onlyNum)}, true)
+			}
+		case "E32", "E53": // *NPoint / *NBox from a map: a pointer to a new struct
+			r.callSeqCase(m, []object.Object{mp("F1", str("p")), mp()}, false)
+		}
+	}
+	st2 := c08_mStruct(c08_mSlice(c08_mNPoint), c08_mInt(0))
+	r.setCase(st2, reflect.New(st2.RT()).Elem(), 0, object.NewList([]object.Object{full, onlyName}), false) // a []struct field written as a list of maps
 	r.histDirected()
 }
 
@@ -2195,9 +2609,13 @@ func c08_runC08(e *Env) {
 		"3-24 steps of script reads / scalar writes / pointer stores / fresh-struct stores through paths of 1-6 steps interleaved with Go-side scalar stores, " +
 		"re-pointed pointers (65% at a pointer the script has walked through before), fresh objects, replaced slices / maps / struct values; after every mutation " +
 		"the place is read again through every name of the object; the whole Go heap is compared after every step; executed through kept proxies (hist-api) and as one script (hist-script; non-trivial: Go replaced a pointer / slice / map). Types are built with reflect (PointerTo/SliceOf/ArrayOf/MapOf/StructOf) to depth <= 3 over scalars, " +
-		"time.Time, interface{}, chan and 15 declared types; values are zero/nil/extremes/random; script objects for the " +
+		"time.Time, interface{}, chan and 21 declared types (among them []string, [2]string, []byte, []float64, map[string][]string and a struct holding a declared []string); values are zero/nil/extremes/random; script objects for the " +
 		"script-to-Go direction are natural (what From produced), numeric boundary values, nil, mismatched kinds, wrong-length " +
-		"lists, foreign proxies. Non-trivial: type depth >= 1 or a boundary value; distinct by the canonical text of the case."
+		"lists, foreign proxies, and MAPS where Go wants a struct (each field named with 60%, sometimes a key that names no field). " +
+		"SERIES: 2-4 objects converted one after the other through ONE converter (conv.To + slot) or passed to ONE Go method " +
+		"(70% struct types S, *S, []S, [n]S, map[string]S filled from maps, the first map naming most fields, later ones fewer); " +
+		"every result is compared with the model's single conversion and the Spec is evaluated per element. " +
+		"Non-trivial: type depth >= 1 or a boundary value; distinct by the canonical text of the case."
 	r := &c08Run{e: e, g: &c08_gen{r: e.Rng.Fork()}}
 	r.directed()
 	r.flush()
@@ -2280,6 +2698,12 @@ func c08_runC08(e *Env) {
 				r.reuseRandom()
 				e.R.H("op", "reuse")
 			}
+		case op == 98 || op == 90: // one converter, a series of conversions
+			r.seqRandom()
+			e.R.H("op", "seq")
+		case op == 91: // one method, a series of calls
+			r.callSeqRandom()
+			e.R.H("op", "callseq")
 		default: // method call
 			m := Pick(g.r, c08_hostMethods)
 			o := g.objFor(m.pt, 2)
